@@ -93,4 +93,24 @@ theorem C15_source_skeletons_5 :
     Gen.Skel.RootNode_lookupDBNode = Expected.Skel.RootNode_lookupDBNode :=
   ⟨rfl, rfl, rfl, rfl⟩
 
+/-- A drop is durable and forwarded before it is visible — facts proved by `decide` about the
+    skeleton of `(DB).Drop` regenerated from db.go: the tombstone file is encoded, closed and synced
+    first; under a remote halt lock it is committed to the primary before anything local changes;
+    the one `Rename` that publishes it comes before the database file is removed, and the position
+    is set only after the four files are gone. -/
+theorem C15_drop_publishes_the_tombstone_before_removing :
+    let ix (sk : List (String × String)) (x : String × String) (d : Nat) := (sk.findIdx? (· == x)).getD d
+    let t := Gen.Skel.DB_Drop
+    ix t ("call", "enc.Close") 1000 < ix t ("call", "ltxFile.Sync") 0 ∧
+    ix t ("call", "ltxFile.Sync") 1000 < ix t ("call", "db.store.Client.Commit") 0 ∧
+    ix t ("call", "db.store.Client.Commit") 1000 < ix t ("call", "db.os.Rename") 0 ∧
+    (t.filter (· == ("call", "db.os.Rename"))).length = 1 ∧
+    ix t ("call", "db.os.Rename") 1000 < ix t ("call", "db.DatabasePath") 0 ∧
+    ix t ("call", "db.DatabasePath") 1000 < ix t ("call", "db.JournalPath") 0 ∧
+    ix t ("call", "db.JournalPath") 1000 < ix t ("call", "db.WALPath") 0 ∧
+    ix t ("call", "db.WALPath") 1000 < ix t ("call", "db.SHMPath") 0 ∧
+    ix t ("call", "db.SHMPath") 1000 < ix t ("call", "db.setPos") 0 ∧
+    ix t ("call", "db.setPos") 1000 < ix t ("return", "return nil") 0 := by
+  decide
+
 end LiteFSVerif.C15
